@@ -341,6 +341,47 @@ func runC06(r *Run) int {
 			}
 		}
 	})
+	// v3 objects that are by-value copies of an already rated object with their fields overwritten, and several
+	// Temporal literals built around one shared Base (a what-if loop over E/RL/RC)
+	r.Parallel(r.Pick(20000, 200000), 16, func(w *W, i int) {
+		rng := r.Rng(uint64(i) + 1<<47)
+		va := represent3(rng.IntN(nEff3), rng.IntN(100), rng, nil)
+		vb := represent3(rng.IntN(nEff3), rng.IntN(100), rng, nil)
+		o, err, pan := lib.DecodeAuto(lib.K3E, render3(&va, spec.LEnv, nil))
+		if err != nil || pan != nil || o.IsNil() {
+			return
+		}
+		scoreSev(o, i%2 == 0) // rate the original first
+		if tv, ok, _ := o.TemporalView(); ok && !tv.IsNil() {
+			scoreSev(tv, i%2 == 1)
+		}
+		c := lib.CopyOf(o)
+		// the copy shares the embedded pointers with the original: give it its own lower levels for one half
+		if i%4 < 2 {
+			t := *c.E3.Temporal
+			b := *t.Base
+			t.Base = &b
+			c.E3.Temporal = &t
+		}
+		lib.Fill3(c.E3, &vb)
+		checkGrid3Obj(w, g, c, func() Case {
+			cs := structCase(&vb)
+			cs.Args = map[string]string{"origin": "by-value copy of an already rated object decoded from " + render3(&va, spec.LEnv, nil) + ", fields overwritten on the copy"}
+			return cs
+		})
+		// Temporal literals around one shared Base
+		bo, berr, _ := lib.DecodeAuto(lib.K3B, render3(&va, spec.LBase, nil))
+		if berr != nil || bo.IsNil() {
+			return
+		}
+		for j := 0; j < 3; j++ {
+			tl := &m3.Temporal{Base: bo.B3, E: m3.Exploitability(lib.C3[spec.E][rng.IntN(5)]), RL: m3.RemediationLevel(lib.C3[spec.RL][rng.IntN(5)]), RC: m3.ReportConfidence(lib.C3[spec.RC][rng.IntN(4)])}
+			lo := lib.Obj{Kind: lib.K3T, T3: tl}
+			checkGrid3Obj(w, g, lo, func() Case {
+				return Case{Type: "v3struct", Kind: lib.K3T.String(), Input: render3(&va, spec.LBase, nil), Args: map[string]string{"origin": fmt.Sprintf("Temporal literal #%d around a Base shared with earlier literals", j)}}
+			})
+		}
+	})
 	r.Phase("v3 environmental product")
 	// v3 reports: score fields of decoded environmental vectors
 	nRep := r.Pick(20000, 300000)
@@ -431,7 +472,7 @@ func runC06(r *Run) int {
 	if r.Counter("valid_vector_not_decoded") > 0 || r.Counter("score_panicked") > 0 {
 		r.Inconclusive("%d valid vectors were not decoded / %d queries panicked", r.Counter("valid_vector_not_decoded"), r.Counter("score_panicked"))
 	}
-	return r.Finish("rider on the C01-C05 enumerations: all 5,184 v3 base vectors, all 518,400 v3 temporal vectors, the full v3 effective x temporal environmental product and all 518,400 environmental objects without environmental metrics (base/temporal/environmental level of each object), report score fields of decoded environmental vectors, all 73,629 v2 base/temporal vectors at every admitting decoder, and every v2 (exploitability, adjusted impact) key x 30 (CDP,TD) x temporal states; each (score, severity) pair checked for grid, range, printing and band; distinct non-trivial = distinct (decoder type, score value) pairs observed",
+	return r.Finish("rider on the C01-C05 enumerations: all 5,184 v3 base vectors, all 518,400 v3 temporal vectors, the full v3 effective x temporal environmental product and all 518,400 environmental objects without environmental metrics (base/temporal/environmental level of each object), by-value copies of rated objects with overwritten fields and Temporal literals sharing one Base, report score fields of decoded environmental vectors, all 73,629 v2 base/temporal vectors at every admitting decoder, and every v2 (exploitability, adjusted impact) key x 30 (CDP,TD) x temporal states; each (score, severity) pair checked for grid, range, printing and band; distinct non-trivial = distinct (decoder type, score value) pairs observed",
 		true, int64(r.SetSize("score_band")), 1000000, 300, TrustedBase)
 }
 
